@@ -1430,6 +1430,17 @@ def c14(tier, seed):
     # ---- Into method forms, one list vs several attributes
     for j, msp in enumerate(val_forms("method", "crate::m::into_a")):
         for split in (False, True):
+            # a third field of the first target's type: if a marker is lost, the same-type fallback silently picks it
+            fs = [Field("a", "u8", attrs=["Into(u16, %s)" % msp, "Into(u32)"], into={"marks": {"u16": "crate::m::into_a", "u32": None}}), Field("b", "u8", into={}),
+                  Field("c", "u16", into={})]
+            if split:
+                fs[0].sem["_split_attrs"] = True
+            add(into_program(c.pid(), "struct", [Variant(None, "named", fs)], ["u16", "u32"], "C14 Into method=`%s` split=%s with a same-typed decoy" % (msp, split), 1 if split else 0))
+            fs = [Field("a", "u8", attrs=["Into(u32)", "Into(u16, %s)" % msp], into={"marks": {"u16": "crate::m::into_a", "u32": None}}), Field("b", "u32", into={}),
+                  Field("c", "u8", into={})]
+            if split:
+                fs[0].sem["_split_attrs"] = True
+            add(into_program(c.pid(), "struct", [Variant(None, "named", fs)], ["u16", "u32"], "C14 Into (u32 first) method=`%s` split=%s with a same-typed decoy" % (msp, split), 1 if split else 0))
             fs = [Field("a", "u8", attrs=["Into(u16, %s)" % msp, "Into(u32)"], into={"marks": {"u16": "crate::m::into_a", "u32": None}}), Field("b", "u8", into={})]
             if split:
                 fs[0].sem["_split_attrs"] = True
